@@ -388,7 +388,7 @@ func jsRealGenerateAST(text, pkg string) (sch *ast.Schema, err error) {
 // c01FrontRealEmitted: the JSON Schema the REAL jsonschema jenny writes for the real front-end IR (after the jsonschema
 // language's own compiler passes), compiled by the reference validator at `#/definitions/<root>`: the back half of the
 // source-schema → IR → emitted-schema round trip (tie of C12_jsonschema_source_validates_emitted_partial).
-func c01FrontRealEmitted(real *ast.Schema) (rv *refValidator, text string, err error) {
+func c01FrontRealEmitted(real *ast.Schema, root string) (rv *refValidator, text string, err error) {
 	defer func() {
 		if rec := recover(); rec != nil {
 			err = fmt.Errorf("PANIC: %v", rec)
@@ -408,8 +408,8 @@ func c01FrontRealEmitted(real *ast.Schema) (rv *refValidator, text string, err e
 	if sch == nil {
 		return nil, "", fmt.Errorf("package lost by the compiler passes")
 	}
-	if real.EntryPoint == "" {
-		return nil, "", fmt.Errorf("no entry point")
+	if root == "" {
+		return nil, "", fmt.Errorf("no root definition")
 	}
 	jenny := jsjenny.Schema{ReferenceFormatter: func(ref ast.RefType) string { return "#/definitions/" + ref.ReferredType }}
 	def := jenny.GenerateSchema(languages.Context{Schemas: processed}, sch)
@@ -417,7 +417,7 @@ func c01FrontRealEmitted(real *ast.Schema) (rv *refValidator, text string, err e
 	if err != nil {
 		return nil, "", err
 	}
-	rv, err = newRefValidator("jsonschema", string(raw), real.EntryPoint)
+	rv, err = newRefValidator("jsonschema", string(raw), root)
 	return rv, string(raw), err
 }
 
@@ -643,7 +643,7 @@ func c01FrontEmit(out *bufio.Writer, c frontCase, hist map[string]int) {
 		fmt.Fprintf(out, "jsfc08 %s %s.fe %s\t-\tok\n", c.ID, c.ID, d.Doc.sexp())
 	}
 	// source schema → real front-end → real jsonschema jenny: does the EMITTED schema accept the document? (lean/Cog/Drv/FrontEmitDrv.lean)
-	erv, etext, eerr := c01FrontRealEmitted(real)
+	erv, etext, eerr := c01FrontRealEmitted(real, real.EntryPoint)
 	if eerr == nil {
 		if ejv, err := parseJV([]byte(etext)); err == nil {
 			fmt.Fprintf(out, "-\temitted %s %s\tok\n", c.ID, ejv.json())
